@@ -432,3 +432,95 @@ Proof.
   cbv zeta. split; [|reflexivity].
   intros kv n [<-|[]] [<-|[]]. reflexivity.
 Qed.
+
+(* ------------------------------------------------------------------------------------------ *)
+(* the forgiving text readers of uuid.UUID and cal.DateTime                                    *)
+(* ------------------------------------------------------------------------------------------ *)
+(* Marshal/Typed.v: `parse_uuid s` is the text a uuid.UUID field holds (and json.Marshal writes) after
+   UnmarshalText read s - uuid.Parse of the repository over github.com/google/uuid Parse; `parse_datetime s`
+   is the text written for the cal.DateTime read from s - civil.ParseDateTime (time.Parse, T or t) and the
+   repository's refusal of a fraction of a second; None = the reader returns an error.  At these two leaves
+   the model never answers Dom (uuid_and_datetime_leaves_are_modelled_exactly).
+   is_hex = 0-9 a-f A-F; lower_hex lowers A-F; hyphenate groups 32 bytes 8-4-4-4-12; fold_eq = equal up to
+   ASCII case; pad2 = %02d; frac_zero f = f is empty, or '.' or ',' followed by digits only (at least one)
+   of which the first nine are zeros. *)
+From Verif Require Import Marshal.LeafTextProofs Rates.Date Json.Number.
+
+Theorem uuid_reader_accepts_exactly s c :
+  parse_uuid s = Some c <->
+  (s = [] /\ c = []) \/
+  exists h, length h = 32%nat /\ forallb is_hex h = true /\
+    (s = h \/
+     s = hyphenate h \/
+     (exists p, length p = 9%nat /\ fold_eq p (bs "urn:uuid:"%string) = true /\ s = p ++ hyphenate h) \/
+     (exists a z, s = a :: hyphenate h ++ [z])) /\
+    c = hyphenate (map lower_hex h).
+Proof. exact (parse_uuid_spec s c). Qed.
+Print Assumptions uuid_reader_accepts_exactly.
+
+Theorem uuid_written_form_is_canonical s c :
+  parse_uuid s = Some c -> canonical_uuid c = true /\ parse_uuid c = Some c.
+Proof. exact (parse_uuid_canonical s c). Qed.
+Print Assumptions uuid_written_form_is_canonical.
+
+Theorem uuid_kept_as_given_iff_canonical s : parse_uuid s = Some s <-> canonical_uuid s = true.
+Proof. exact (parse_uuid_fixed_canonical s). Qed.
+Print Assumptions uuid_kept_as_given_iff_canonical.
+
+(* the "{...}" form: ANY two bytes around the 36 are accepted and dropped *)
+Theorem uuid_reader_ignores_the_outer_bytes a z h : length h = 32%nat -> forallb is_hex h = true ->
+  parse_uuid (a :: hyphenate h ++ [z]) = Some (hyphenate (map lower_hex h)).
+Proof. exact (parse_uuid_outer_bytes a z h). Qed.
+Print Assumptions uuid_reader_ignores_the_outer_bytes.
+
+Example uuid_reader_nonvacuous :
+  let u := bs "f47ac10b-58cc-0372-8567-0e02b2c3d479"%string in
+  parse_uuid (bs "F47AC10B-58cc-0372-8567-0E02B2C3D479"%string) = Some u /\
+  parse_uuid (bs "URN:uuid:F47AC10B-58cc-0372-8567-0E02B2C3D479"%string) = Some u /\
+  parse_uuid (bs "{f47ac10b-58cc-0372-8567-0e02b2c3d479}"%string) = Some u /\
+  parse_uuid (bs "xf47ac10b-58cc-0372-8567-0e02b2c3d479y"%string) = Some u /\
+  parse_uuid (bs "f47ac10b58cc037285670e02b2c3d479"%string) = Some u /\
+  parse_uuid (bs "f47ac10b-58cc-0372-8567-0e02b2c3d47"%string) = None /\
+  parse_uuid (bs "f47ac10b-58cc-0372-85670-e02b2c3d479"%string) = None /\
+  parse_uuid (bs "urn:uuix:f47ac10b-58cc-0372-8567-0e02b2c3d479"%string) = None /\
+  canonical_uuid u = true /\ canonical_uuid (bs "{f47ac10b-58cc-0372-8567-0e02b2c3d479}"%string) = false.
+Proof. vm_compute. repeat split; reflexivity. Qed.
+
+Theorem datetime_reader_accepts_exactly s c :
+  parse_datetime s = Some c <->
+  (s = bs "0000-00-00T00:00:00"%string /\ c = bs "0000-00-00T00:00:00"%string) \/
+  exists d t h hh n sec f,
+    date_valid d = true /\ 0 <= d_year d <= 9999 /\ 0 <= h < 24 /\ 0 <= n < 60 /\ 0 <= sec < 60 /\
+    (t = x54 \/ t = x74) /\                                   (* T or t *)
+    (hh = pad2 h \/ (h < 10 /\ hh = [ch (48 + h)])) /\          (* the hour may have ONE digit *)
+    frac_zero f = true /\
+    s = print_date d ++ t :: hh ++ x3a :: pad2 n ++ x3a :: pad2 sec ++ f /\
+    c = print_date d ++ x54 :: pad2 h ++ x3a :: pad2 n ++ x3a :: pad2 sec.
+Proof. exact (parse_datetime_spec s c). Qed.
+Print Assumptions datetime_reader_accepts_exactly.
+
+Theorem datetime_written_form_is_canonical s c :
+  parse_datetime s = Some c -> canonical_datetime c = true /\ parse_datetime c = Some c.
+Proof. exact (parse_datetime_canonical s c). Qed.
+Print Assumptions datetime_written_form_is_canonical.
+
+Example datetime_reader_nonvacuous :
+  let t := bs "2024-02-29T07:45:00"%string in
+  parse_datetime t = Some t /\
+  parse_datetime (bs "2024-02-29t7:45:00"%string) = Some t /\
+  parse_datetime (bs "2024-02-29T07:45:00.000"%string) = Some t /\
+  parse_datetime (bs "2024-02-29T07:45:00,0000000009"%string) = Some t /\
+  parse_datetime (bs "2024-02-29T07:45:00.5"%string) = None /\
+  parse_datetime (bs "2023-02-29T07:45:00"%string) = None /\
+  parse_datetime (bs "2024-02-29T07:5:00"%string) = None /\
+  parse_datetime (bs "2024-02-29T07:45:00Z"%string) = None /\
+  parse_datetime (bs "2024-02-29T24:00:00"%string) = None /\
+  parse_datetime (bs "0000-02-29T00:00:00"%string) = Some (bs "0000-02-29T00:00:00"%string) /\
+  parse_datetime (bs "0000-00-00T00:00:00"%string) = Some (bs "0000-00-00T00:00:00"%string) /\
+  parse_datetime (bs "0000-00-00t00:00:00"%string) = None.
+Proof. vm_compute. repeat split; reflexivity. Qed.
+
+Theorem uuid_and_datetime_leaves_are_modelled_exactly j :
+  reenc_leaf LUUID j <> Dom /\ reenc_leaf LDateTime j <> Dom.
+Proof. exact (uuid_datetime_leaves_total j). Qed.
+Print Assumptions uuid_and_datetime_leaves_are_modelled_exactly.
